@@ -46,6 +46,12 @@ var cells = []cell{
 	{`<p>{{.}}</p><i>z</i>`, "", []string{"HTML"}, false},
 	{`<div>a{{.}}b</div><i>z</i>`, "", []string{"HTML"}, false},
 	{`{{.}}<i>z</i>`, "", []string{"HTML"}, false},
+	// the self-closing syntax does not close an HTML element that is not void
+	{`<textarea/>{{.}}</textarea><i>z</i>`, "", nil, false},
+	{`<title />{{.}}</title><i>z</i>`, "", nil, false},
+	{`<script/>{{.}}</script><i>z</i>`, "", []string{"Script"}, false},
+	{`<script type="text/javascript"/>{{.}}</script><i>z</i>`, "", []string{"Script"}, false},
+	{`<style media="x"/>{{.}}</style><i>z</i>`, "", []string{"StyleSheet"}, false},
 	{`<textarea>{{.}}</textarea><i>z</i>`, "", nil, false},
 	{`<title>{{.}}</title><i>z</i>`, "", nil, false},
 	{`<script>{{.}}</script><i>z</i>`, "", []string{"Script"}, false},
